@@ -9,10 +9,12 @@ import Kurbo.OpsSvg
 import Kurbo.OpsDash
 import Kurbo.OpsStroke
 import Kurbo.OpsSimplify
+import Kurbo.OpsSvgWrite
+import Kurbo.OpsPathMut
 open Kurbo Kurbo.Driver
 
 def tables (K : Type) [Scalar K] [Codec K] : List (String → Option (Rd String)) :=
-  [opsKernel (K := K), opsPath (K := K), opsSolve (K := K), opsCurve (K := K), opsQuads (K := K), opsFlatten (K := K), opsShapes (K := K), opsSvg (K := K), opsDash (K := K), opsStroke (K := K), opsSimplify (K := K)]
+  [opsKernel (K := K), opsPath (K := K), opsSolve (K := K), opsCurve (K := K), opsQuads (K := K), opsFlatten (K := K), opsShapes (K := K), opsSvg (K := K), opsDash (K := K), opsStroke (K := K), opsSimplify (K := K), opsSvgWrite (K := K), opsPathMut (K := K)]
 
 def runLine (K : Type) [Scalar K] [Codec K] (line : String) : String :=
   let toks := (line.trimAscii.toString.splitOn " ").filter (· ≠ "")
